@@ -163,7 +163,8 @@ def _chunk(args):
     col = core.Collector()
     rng = np.random.default_rng(seed)
     for ln in lines:
-        check_case(col, cfgname, json.loads(ln), rng)
+        t = json.loads(ln)
+        core.guarded(col, lambda: check_case(col, cfgname, t, rng), "indicators", f"case {t}"[:600], {"config": cfgname, "transition": t})
         col.traces += 1
     return col
 
